@@ -75,6 +75,8 @@ func serialOfClass(class string) *big.Int {
 	case "long": // forces POST: base64 of the request >= 255
 		b := bytes.Repeat([]byte{0x11}, 150)
 		return new(big.Int).SetBytes(b)
+	case "slashes": // a short request (GET) whose base64 text has runs of '/' and several '+': they must arrive escaped, as one path segment
+		return new(big.Int).SetBytes([]byte{0x5a, 0xff, 0xff, 0xff, 0xff, 0xff, 0xfb, 0xef, 0xbe, 0xfb, 0xef, 0xbe, 0x11})
 	case "medium": // base64 < 255 but its URL-escaped form >= 255 (many '+' and '/')
 		b := bytes.Repeat([]byte{0x7b, 0xef, 0xbe}, 37) // 111 bytes
 		return new(big.Int).SetBytes(b)
@@ -158,6 +160,30 @@ func ocspBehaviours() []ocspBehaviour {
 			}})
 		}
 	}
+	// the reason code of a Revoked answer is informational: whatever it says (also "removeFromCRL", "certificateHold", or nothing),
+	// the status is Revoked
+	for _, rc := range []struct {
+		n string
+		v int
+	}{{"absent", 0}, {"certificateHold", 6}, {"removeFromCRL", 8}, {"aACompromise", 10}} {
+		rc := rc
+		add("revoked-reason-"+rc.n+"/issuer", clsRevoked, func(w *ocspWorld) netsim.Answer {
+			s := single(w, pki.OCSPRevoked)
+			s.Reason = rc.v
+			return okResp(byIssuer(w, s))
+		})
+	}
+	add("revoked-reason-removeFromCRL/delegate", clsRevoked, func(w *ocspWorld) netsim.Answer {
+		s := single(w, pki.OCSPRevoked)
+		s.Reason = 8
+		return okResp(byDelegate(w, s))
+	})
+	out = append(out, ocspBehaviour{name: "revoked-reason-removeFromCRL-invalidity-1/issuer", class: clsRevokedInv, inv: -1, make: func(w *ocspWorld) netsim.Answer {
+		s := single(w, pki.OCSPRevoked)
+		s.Reason = 8
+		s.Invalidity = w.st.Add(-time.Hour)
+		return okResp(byIssuer(w, s))
+	}})
 	add("good-in-multi-position2/issuer", clsGood, func(w *ocspWorld) netsim.Answer {
 		o := single(w, pki.OCSPRevoked)
 		o.Serial = big.NewInt(777001)
@@ -454,7 +480,7 @@ func c04Scenarios(tier mc.Tier) []mc.Scenario {
 	var out []mc.Scenario
 	nb := int64(len(c04Behaviours))
 	for _, ik := range []string{"p256-a", "rsa2048-a"} {
-		for _, serial := range []string{"short", "long", "medium"} {
+		for _, serial := range []string{"short", "long", "medium", "slashes"} {
 			for n := 1; n <= 3; n++ {
 				for _, wt := range []bool{false, true} {
 					for _, entry := range []string{"validate", "checkstatus"} {
@@ -693,6 +719,12 @@ func (s *c04Scenario) body(c *mc.Ctx) {
 		}
 	}
 	switch s.serial {
+	case "slashes":
+		for _, r := range tr.Requests() {
+			if !r.FollowUp && r.Method == http.MethodGet && strings.Contains(strings.ToUpper(fmt.Sprint(r.URL)), "%2F%2F") {
+				c.Outcome("request:GET-with-a-run-of-escaped-slashes")
+			}
+		}
 	case "long", "medium":
 		for _, r := range tr.Requests() {
 			if !r.FollowUp && r.Method == http.MethodPost {
@@ -777,7 +809,7 @@ func init() {
 		Init:      c04Init,
 		Scenarios: c04Scenarios,
 		Alphabet: func(mc.Tier) map[string]int {
-			return map[string]int{"responder_behaviours": len(c04Behaviours), "max_urls": 3, "serial_classes": 3}
+			return map[string]int{"responder_behaviours": len(c04Behaviours), "max_urls": 3, "serial_classes": 4}
 		},
 		Guards: func(s *mc.Stats, t mc.Tier) []string {
 			var w []string
